@@ -6,6 +6,11 @@
 #include <signal.h>
 #include <unistd.h>
 #include <sys/mman.h>
+#include <pthread.h>
+
+static pthread_mutex_t ga_lock = PTHREAD_MUTEX_INITIALIZER;
+__thread int ga_tl_idx[64];
+__thread int ga_tl_n;
 
 /* ===================================================================== rng */
 void
@@ -76,8 +81,19 @@ ga_init(void)
         ga_cur = 0;
 }
 
+static void *ga_alloc_locked(size_t size, size_t align, int placement, const char *name, int owner);
+
 void *
 ga_alloc(size_t size, size_t align, int placement, const char *name, int owner)
+{
+        pthread_mutex_lock(&ga_lock);
+        void *p = ga_alloc_locked(size, align, placement, name, owner);
+        pthread_mutex_unlock(&ga_lock);
+        return p;
+}
+
+static void *
+ga_alloc_locked(size_t size, size_t align, int placement, const char *name, int owner)
 {
         if (!ga_base)
                 ga_init();
@@ -112,6 +128,8 @@ ga_alloc(size_t size, size_t align, int placement, const char *name, int owner)
                 ga_cap = ga_cap ? ga_cap * 2 : 1024;
                 ga_objs = realloc(ga_objs, ga_cap * sizeof(ga_obj));
         }
+        if (ga_tl_n < 64)
+                ga_tl_idx[ga_tl_n++] = ga_n;
         ga_objs[ga_n++] = (ga_obj){ d0, np, ptr, size, name, owner, 0 };
         ga_cur += (np + 1) * PG;
         return ptr;
@@ -190,6 +208,7 @@ ga_check_range(int first, int last, const ga_obj **bad);
 int
 ga_drop(int first, int last)
 {
+        pthread_mutex_lock(&ga_lock);
         int r = ga_check_range(first, last, NULL);
         for (int i = first; i < last && i < ga_n; i++) {
                 ga_obj *o = &ga_objs[i];
@@ -199,6 +218,26 @@ ga_drop(int first, int last)
                 madvise(o->page0, o->npages * PG, MADV_DONTNEED);
                 o->dropped = 1;
         }
+        pthread_mutex_unlock(&ga_lock);
+        return r;
+}
+
+int
+ga_drop_list(const int *idx, int n)
+{
+        int r = 0;
+        pthread_mutex_lock(&ga_lock);
+        for (int k = 0; k < n; k++) {
+                int i = idx[k];
+                if (i < 0 || i >= ga_n || ga_objs[i].dropped)
+                        continue;
+                r |= ga_check_range(i, i + 1, NULL);
+                ga_obj *o = &ga_objs[i];
+                mprotect(o->page0, o->npages * PG, PROT_NONE);
+                madvise(o->page0, o->npages * PG, MADV_DONTNEED);
+                o->dropped = 1;
+        }
+        pthread_mutex_unlock(&ga_lock);
         return r;
 }
 
